@@ -1,4 +1,4 @@
-\* Agent: mode=off UpgradeSend=drop UpgradeRecheck=TRUE; 3 clients x 2 calls, channel capacity 2
+\* WRONG DESIGN (a caller that stops waiting; the reply still goes to its unbuffered channel). Agent: mode=off UpgradeSend=drop UpgradeRecheck=TRUE; 3 clients x 1 calls, channel capacity 2
 SPECIFICATION Spec
 CONSTANTS
     Clients = {"c1", "c2", "c3"}
@@ -16,9 +16,9 @@ CONSTANTS
     UpgraderSem = "drop"
     Reloads = {}
     IOFaults = FALSE
-    CallerWait = "forever"
+    CallerWait = "giveup"
     UpgradeRecheck = "full"
-    MaxCalls = 2
+    MaxCalls = 1
     Kinds = {"auth", "update", "remove"}
     InitFiles <- MCInit1
 INVARIANTS TypeOK AckedNotUndone NoUpgradeWhenOff NotifyMatchesMutations NotifyAllWhenIdle
